@@ -7,8 +7,8 @@ for f in sorted(glob.glob(os.path.join(V, 'seeded', 'RESULTS*.json'))):
     if f.endswith('RESULTS.json') and len(glob.glob(os.path.join(V, 'seeded', 'RESULTS.*of*.json'))):
         pass
     res.update(json.load(open(f)))
-print('| change | what it breaks (one line) | own check | failed obligations (own) | also reported by | undecided |')
-print('|---|---|---|---|---|---|')
+print('| change | round | what it breaks (one line) | own check | failed obligations (own) | also reported by | undecided |')
+print('|---|---|---|---|---|---|---|')
 det = miss = und = 0
 for mid in sorted(res):
     row = res[mid]
@@ -20,7 +20,7 @@ for mid in sorted(res):
     det += own.get('exit') == 1; miss += own.get('exit') == 0; und += own.get('exit') == 2
     others = [p for p, v in sorted(row.items()) if p != prop and v['exit'] == 1]
     unds = [p for p, v in sorted(row.items()) if p != prop and v['exit'] == 2]
-    print('| %s | %s | %s | %s | %s | %s |' % (mid, what, st, ', '.join(o for o in own.get('obligations', []) if o != 'None')[:90],
+    print('| %s | %s | %s | %s | %s | %s | %s |' % (mid, meta.get('round', 1), what, st, ', '.join(o for o in own.get('obligations', []) if o != 'None')[:90],
                                             ' '.join(others) or '-', ' '.join(unds) or '-'))
 print()
 print('own property: %d detected, %d missed, %d undecided of %d' % (det, miss, und, len(res)))
